@@ -124,6 +124,11 @@ type cluster struct {
 
 func (c *cluster) close() { c.cancel() }
 
+// GetStore goes through BasicCluster's lock like the real RaftCluster.GetStore does. (The mock's own
+// GetStore reads the store map without it; with builds overlapping store updates that would be a race
+// of the test double, not of pd.)
+func (c *cluster) GetStore(id uint64) *core.StoreInfo { return c.Cluster.BasicCluster.GetStore(id) }
+
 func newCluster(w *world) (*cluster, error) {
 	clusterMu.Lock()
 	defer clusterMu.Unlock()
